@@ -311,14 +311,12 @@ def anti_clobber_dir_path(dir_path, suffix='.d'):
     parts = dir_path.split(os.sep)
 
     for index in range(len(parts)):
-        test_path = os.sep.join(parts[:index + 1])
-
-        if os.path.isfile(test_path):
+        # Every part is tested against the path renamed so far: a file may
+        # stand in the way more than once ("blog", then "blog.d/post1").
+        while os.path.isfile(os.sep.join(parts[:index + 1])):
             parts[index] += suffix
 
-            return os.sep.join(parts)
-
-    return dir_path
+    return os.sep.join(parts)
 
 
 def parse_content_disposition(text):
